@@ -211,11 +211,15 @@ func extName(fn *ssa.Function) string {
 		}
 		return "(" + ptr + rt.String() + ")." + fn.Name()
 	}
+	name := fn.Name()
+	if i := strings.Index(name, "["); i > 0 {
+		name = name[:i] // instance of a generic function: named like its origin (slices.Contains)
+	}
 	if fn.Pkg != nil {
-		return fn.Pkg.Pkg.Path() + "." + fn.Name()
+		return fn.Pkg.Pkg.Path() + "." + name
 	}
 	if fn.Object() != nil && fn.Object().Pkg() != nil {
-		return fn.Object().Pkg().Path() + "." + fn.Name()
+		return fn.Object().Pkg().Path() + "." + name
 	}
 	return fn.String()
 }
